@@ -617,8 +617,16 @@ func c05RunScripted(c c05Case) (res c05Res) {
 	res.BytesUp = atomic.LoadInt64(&stats.BytesUp)
 	res.BytesDown = atomic.LoadInt64(&stats.BytesDown)
 	if !hang {
-		res.ClientErr = c05ErrClass(stats.ClientConnErr)
-		res.CovertErr = c05ErrClass(stats.CovertConnErr)
+		// read the error strings the way Proxy does: through the tunnel summary
+		sb := &c05Buf{}
+		stats.Print(log.New(sb, "", 0))
+		var ts struct{ ClientConnErr, CovertConnErr string }
+		txt := sb.String()
+		if i := strings.Index(txt, "{"); i >= 0 {
+			json.Unmarshal([]byte(strings.TrimSpace(txt[i:])), &ts)
+		}
+		res.ClientErr = c05ErrClass(ts.ClientConnErr)
+		res.CovertErr = c05ErrClass(ts.CovertConnErr)
 	}
 	res.DComplUp = atomic.LoadInt64(&ps.completeBytesUp) - cu0
 	res.DComplDown = atomic.LoadInt64(&ps.completeBytesDown) - cd0
